@@ -229,6 +229,9 @@ fn shard(ctx: &Ctx, ifaces: &[&'static IfaceDesc], shard: usize, cases: u64) -> 
                     }
                     acc.res.evaluations += 1;
                     acc.traces += 1;
+                    if fault_at.is_some() {
+                        acc.res.sample(|| J::obj(vec![("iface", J::s(iface.name)), ("stream", J::s(esc(&s.bytes))), ("n", n.into()), ("fault_at_call", fault_at.map(|k| J::Int(k as i64)).unwrap_or(J::Null)), ("trace", J::strs(out.log.iter().filter(|e| !matches!(e, Ev::Enter { .. } | Ev::Exit { .. })).map(|e| e.show())))]));
+                    }
                     if pend != 0 {
                         acc.pend_runs += 1;
                     }
@@ -351,7 +354,9 @@ pub fn run(ctx: &Ctx) -> PropResult {
     res.cov("responses_decoded_and_matched", resp);
     res.cov("traces_with_pending_injection", pend);
     res.cov("messages_without_response", nor);
-    res.samples = vec![J::s("stream \"A?;B:C?\\nA\\n\" byte-wise, error token 1007 injected at transport call 7 (a flush)")];
+    res.samples.truncate(5);
+    let described: Vec<J> = vec![J::s("stream \"A?;B:C?\\nA\\n\" byte-wise, error token 1007 injected at transport call 7 (a flush)")];
+    res.samples.extend(described.into_iter().take(1));
     res.assumptions = vec![
         "messages contain no newline inside a payload; every answer fits N".into(),
         "the due responses come from the generator-side expectation, not from the write segmentation".into(),
